@@ -952,12 +952,11 @@ def b13_leaf_on_codomain_side(ctx) -> None:
 
 # ------------------------------------------------------------------ B14 bookkeeping stacks are balanced
 STACKS = (
-    # (class, function holding the code, attribute, acquire method, release method)
-    ("EqPathParallelSpecFinder", "_search_matching_info", "_path", "append", "pop"),
-    ("EqPathParallelSpecFinder", "_search_matching_info", "_path_ancestors", "add", "remove"),
-    ("EqPathParallelSpecFinder", "_validate_atoms_for_existing_entries", "_path", "append", "pop"),
-    ("ParallelSpecFinder", "_find", "_ancestors", "add", "remove"),
-    ("Isomorphism", "_are_isomorphic", "_ancestors", "update", "difference_update"),
+    # (class, attribute, acquire method, release method): every method of the class (and its nested helpers) is looked at
+    ("EqPathParallelSpecFinder", "_path", "append", "pop"),
+    ("EqPathParallelSpecFinder", "_path_ancestors", "add", "remove"),
+    ("ParallelSpecFinder", "_ancestors", "add", "remove"),
+    ("Isomorphism", "_ancestors", "update", "difference_update"),
 )
 
 
@@ -969,28 +968,73 @@ def b14_stacks_balanced(ctx, only_classes: Optional[Tuple[str, ...]] = None) -> 
     path that is not the current one."""
     P = ctx.P
     n = 0
-    for cname, mname, attr, acq, rel in STACKS:
+    for cname, attr, acq, rel in STACKS:
         if only_classes is not None and cname not in only_classes:
             continue
-        m = P.need_method(cname, mname, own=True)
-        ctx.analysed(m)
-        # the code may sit in a nested helper (_rec)
-        scopes = [m.node] + [x for x in ast.walk(m.node) if isinstance(x, ast.FunctionDef) and x is not m.node]
-        for f in scopes:
-            for c in walk_local(f):
-                if not (isinstance(c, ast.Call) and isinstance(c.func, ast.Attribute) and c.func.attr == acq and is_self_attr(c.func.value, attr)):
-                    continue
-                n += 1
+        cls = P.need_class(cname)
+        for m in cls.methods.values():
+            # the code may sit in a nested helper (_rec) or in a small context manager of the class
+            scopes = [m.node] + [x for x in ast.walk(m.node) if isinstance(x, ast.FunctionDef) and x is not m.node]
+            for f in scopes:
+                for c in walk_local(f):
+                    if not (isinstance(c, ast.Call) and isinstance(c.func, ast.Attribute) and c.func.attr == acq and is_self_attr(c.func.value, attr)):
+                        continue
+                    n += 1
+                    ctx.analysed(m)
 
-                def is_release(x, attr=attr, rel=rel):
-                    return isinstance(x, ast.Call) and isinstance(x.func, ast.Attribute) and x.func.attr == rel and is_self_attr(x.func.value, attr)
+                    def is_release(x, attr=attr, rel=rel):
+                        return isinstance(x, ast.Call) and isinstance(x.func, ast.Attribute) and x.func.attr == rel and is_self_attr(x.func.value, attr)
 
-                paths = C.release_paths(f, c, is_release)
-                bad = [(k, kind, where) for k, kind, where in paths if kind != "raise" and k != 1]
-                if not bad:
-                    ctx.ok("B14", f"{cname}.{mname}: self.{attr}.{acq}(...) is taken back exactly once on each of the {len(paths)} ways out of the step")
-                for k, kind, where in bad[:2]:
-                    ctx.violation("B14", where if where is not None else c, f"{cname}.{mname}: after `{norm(c)[:60]}` the step can end by `{kind}` with self.{attr}.{rel}() executed "
-                                  f"{k} time(s): the entry {'stays behind' if k == 0 else 'is taken back twice'} and later steps compare against a path that is not theirs")
+                    paths = C.release_paths(f, c, is_release)
+                    bad = [(k, kind, where) for k, kind, where in paths if kind != "raise" and k != 1]
+                    if not bad:
+                        ctx.ok("B14", f"{m.qualname}: self.{attr}.{acq}(...) is taken back exactly once on each of the {len(paths)} ways out of the step")
+                    for k, kind, where in bad[:2]:
+                        ctx.violation("B14", where if where is not None else c, f"{m.qualname}: after `{norm(c)[:60]}` the step can end by `{kind}` with self.{attr}.{rel}() executed "
+                                      f"{k} time(s): the entry {'stays behind' if k == 0 else 'is taken back twice'} and later steps compare against a path that is not theirs")
     if n < (5 if only_classes is None else 1):
         ctx.floor("B14", 99)
+
+
+# ------------------------------------------------------------------ B15 matches made under an assumption
+def b15_assumed_matches_withdrawn(ctx) -> None:
+    """The matcher is coinductive: a pair that is being compared further up is accepted
+    (`_ancestors`), and every pair that succeeded is remembered for good (`_order_map`, read
+    back as "already matched").  The two together are sound only if a pair that *fails* takes
+    back what was remembered while it was assumed valid -- a match below it may have been
+    accepted only because of that assumption (finding F13)."""
+    P = ctx.P
+    bc = P.need_method(ISO, "_base_cases", own=True)
+    ctx.analysed(bc)
+    rets = [r for r in C.returns_of(bc.node) if r.value is not None and norm(r.value).endswith("._VALID")]
+    assumes = any(any(pol and "self._ancestors" in norm(t) for t, pol in C.flatten_guards(C.guards(bc.node, r))) for r in rets)
+    memo_read = any(any(pol and norm(t).endswith("in self._order_map") for t, pol in C.flatten_guards(C.guards(bc.node, r))) for r in rets)
+    if not (assumes and memo_read):
+        ctx.ok("B15", "the matcher does not combine recursive acceptance with a permanent memo of matches" if not assumes or not memo_read else "")
+        return
+    m = P.need_method(ISO, "_are_isomorphic", own=True)
+    f = m.node
+    ctx.analysed(m)
+    fails = [c for c in walk_local(f) if isinstance(c, ast.Call) and norm(c.func) == "self._failed.add"]
+    if not fails:
+        raise AnalysisError("B15: the failure exit of _are_isomorphic (self._failed.add) is gone")
+    for fa in fails:
+        blk = C.block_path(f, C.stmt_of(fa))[-1]
+        stmts = blk[2]
+        i_ret = next((i for i, s_ in enumerate(stmts) if isinstance(s_, ast.Return) and i > blk[3]), len(stmts))
+        region = stmts[:i_ret]
+        # withdrawal: entries of the memo are deleted on this exit
+        dels = [x for s_ in region for x in ast.walk(s_)
+                if (isinstance(x, ast.Delete) and any(isinstance(t, ast.Subscript) and norm(t.value) == "self._order_map" for t in x.targets))
+                or (isinstance(x, ast.Call) and isinstance(x.func, ast.Attribute) and norm(x.func.value) == "self._order_map" and x.func.attr in ("pop", "clear", "popitem"))]
+        whole = [x for x in dels if isinstance(x, ast.Call) and x.func.attr == "clear"]
+        marked = bool(PT.find_all(f, "_M_mark = len(self._order_map)")) and any(isinstance(x, ast.Subscript) and isinstance(x.slice, ast.Slice) for s_ in region for x in ast.walk(s_))
+        if dels and (whole or marked):
+            ctx.ok("B15", "a pair that fails withdraws the matches remembered while it was assumed valid")
+        elif dels:
+            ctx.violation("B15", dels[0], "the failing pair removes something from _order_map, but not everything recorded since the pair was assumed valid (entries after "
+                          "`len(self._order_map)` at entry, or the whole memo)")
+        else:
+            ctx.violation("B15", fa, "a pair that fails leaves in _order_map the matches that were made below it: some were accepted only because this pair was assumed valid "
+                          "(recursive match through self._ancestors), and `_base_cases` later reads them back as 'already matched' -- specifications that are not isomorphic "
+                          "are accepted, in one order of the arguments only")
